@@ -96,7 +96,14 @@ macro_rules! impl_saturating {
             type Output = Self;
             #[inline]
             fn shl(self, rhs: u32) -> Self {
-                Self(self.0.checked_shl(rhs).unwrap_or(<$t>::MAX))
+                // The result is representable iff no 1-bit is shifted out
+                Self(if self.0 == 0 {
+                    0
+                } else if rhs <= self.0.leading_zeros() {
+                    self.0 << rhs
+                } else {
+                    <$t>::MAX
+                })
             }
         }
 
